@@ -25,6 +25,7 @@ def check(chk, thorough=False):
     chk.run('C18.g', 'R-FRESH', 'transfer maps and queues belong to their session / agent object (created per instance, no shared default objects) (= C01.g, first part)', lambda ob: (__import__('sa.props.common', fromlist=['per_instance_state', 'fresh_defaults']).per_instance_state(tree, ob, 'tcpcl/session.py', ('Connection', 'Messenger', 'ContactHandler')), __import__('sa.props.common', fromlist=['per_instance_state', 'fresh_defaults']).per_instance_state(tree, ob, 'tcpcl/agent.py', ('Agent',)), __import__('sa.props.common', fromlist=['per_instance_state', 'fresh_defaults']).per_instance_state(tree, ob, 'udpcl/agent.py', ('Agent',)), __import__('sa.props.common', fromlist=['per_instance_state', 'fresh_defaults']).fresh_defaults(tree, ob, ['tcpcl/session.py', 'tcpcl/agent.py', 'tcpcl/config.py'])), floor=3)
     chk.run('C18.h', 'R-FLOW', 'popping returns exactly the announced bundle: a bundle is cut out of its datagram at its own item boundaries (= C13.e)', lambda ob: __import__('sa.props.c13', fromlist=['c13e']).c13e(tree, ob), floor=5)
     chk.run('C18.f', 'R-GUARD', 'a started transfer still completes (and gets its finished signal) while terminating (= C09.h); received UDPCL items get local ids (= C13.g)', lambda ob: _c18f(tree, ob), floor=3)
+    chk.run('C18.i', 'R-ORDER', 'UDPCL reassembly is keyed by (address, port, transfer id): two senders on one host do not merge into one announced bundle (= C13.d)', lambda ob: __import__('sa.props.c13', fromlist=['c13d']).c13d(tree, ob), floor=6)
     chk.run('C18.e', 'R-SCHEMA', 'BP-side subscribers name existing signals with matching arity and pop only successful transfers', lambda ob: c18e(tree, ob), floor=6)
 
 
@@ -480,6 +481,12 @@ def _pend_ack_growth(tree, ob):
 
 def c18d(tree, ob):
     _pend_ack_growth(tree, ob)
+    # the acknowledgement handler finishes the transfer: it must not be left by an arithmetic error on the way
+    # audited divisor: delta_t = wall-clock difference between sending a segment and its acknowledgement (datetime.now() has
+    # microsecond resolution; send and acknowledgement are separate event-loop callbacks)
+    from .common import divisions_guarded
+    n = divisions_guarded(tree, ob, [SESS], audited=((SESS, 'Messenger._modulate_tx_seg_size', 'delta_t'),))
+    ob.require(n >= 1, 'divisions in the session code')
     _success_only_when_awaited(tree, ob)
     fv = FuncView(tree, SESS, 'ContactHandler.is_sess_idle')
     rets = [r for r in walk_local(fv.func) if isinstance(r, ast.Return)]
